@@ -135,7 +135,7 @@ def add_params(kind, t1, t2, to, faf):
     if sh1 > 0 or sh2 > 0 or sho > 0 or rout >= 1.0:
         raise NotSimulated(f"{kind}:multiplier_not_smaller_than_one")
     lo, hi = act_range(faf, so, zo, dtype)
-    return [lo, hi, ls, m1, sh1, m2, sh2, mo, sho]
+    return [lo, hi, ls, m1, sh1, m2, sh2, mo, sho, faf]
 
 
 class GraphText:
@@ -208,6 +208,7 @@ def op_text(model, sg, op, kind):
         g0 = [sh, sw, dhf, dwf, 1 if pad == 0 else 0, lo, hi]
         if dw:
             g0.append(mult)
+        g0.append(faf)
         g = [g0, ms, shs]
         ins = ins[:3] + [-1] * (3 - len(ins[:3]))
     elif kind == "FULLY_CONNECTED":
@@ -222,7 +223,7 @@ def op_text(model, sg, op, kind):
             raise NotSimulated("FULLY_CONNECTED:dynamic_weights")
         m, s = quantize_multiplier(np.float64(f32(sx * sw_)) / np.float64(so))
         lo, hi = act_range(faf, so, zo, o["type"])
-        g = [[lo, hi, m, s]]
+        g = [[lo, hi, m, s, faf]]
         ins = ins[:3] + [-1] * (3 - len(ins[:3]))
     elif kind in ("MAX_POOL_2D", "AVERAGE_POOL_2D"):
         x, o = T[ins[0]], T[outs[0]]
@@ -231,7 +232,7 @@ def op_text(model, sg, op, kind):
         so, zo = one_scale(o, kind)
         lo, hi = act_range(opt(op, 5, "b", 0), so, zo, o["type"])
         g = [[opt(op, 2, "i", 0), opt(op, 1, "i", 0), opt(op, 4, "i", 0), opt(op, 3, "i", 0),
-              1 if opt(op, 0, "b", 0) == 0 else 0, lo, hi]]
+              1 if opt(op, 0, "b", 0) == 0 else 0, lo, hi, opt(op, 5, "b", 0)]]
     elif kind in ("ADD", "SUB"):
         g = [add_params(kind, T[ins[0]], T[ins[1]], T[outs[0]], opt(op, 0, "b", 0))]
     elif kind == "MUL":
@@ -240,7 +241,7 @@ def op_text(model, sg, op, kind):
         so, zo = one_scale(T[outs[0]], kind)
         m, s = quantize_multiplier(np.float64(f32(f32(s1 * s2) / so)))
         lo, hi = act_range(opt(op, 0, "b", 0), so, zo, T[outs[0]]["type"])
-        g = [[lo, hi, m, s]]
+        g = [[lo, hi, m, s, opt(op, 0, "b", 0)]]
     elif kind in ("MINIMUM", "MAXIMUM"):
         if not (qparams(T[ins[0]]) == qparams(T[ins[1]]) == qparams(T[outs[0]])):
             raise NotSimulated(f"{kind}:quantisation_differs")
@@ -268,7 +269,10 @@ def op_text(model, sg, op, kind):
         alpha = f32(opt(op, 0, "f", 0.0))
         ma, sa = quantize_multiplier(np.float64(f32(f32(si * alpha) / so)))
         mi, s_i = quantize_multiplier(np.float64(f32(si / so)))
-        g = [[mi, s_i, ma, sa]]
+        g = [[mi, s_i, ma, sa, f32bits(alpha)]]
+    elif kind in ("LOGISTIC", "TANH"):
+        one_scale(T[ins[0]], kind)
+        one_scale(T[outs[0]], kind)
     elif kind in ("RESHAPE", "SQUEEZE", "EXPAND_DIMS"):
         if qparams(T[ins[0]]) != qparams(T[outs[0]]):
             raise NotSimulated(f"{kind}:quantisation_differs")
